@@ -559,6 +559,12 @@ class SimThread(object):
         if s is None or s.by_ident.get(get_ident()) is None:
             raise HarnessError("joining a sim thread from outside the run")
         s.yield_point("thread.join")
+        if timeout is not None and self._actor.state != DONE:
+            # a timed join: whatever the thread is waiting for may be arbitrarily slow, so the timeout
+            # may expire first -- the scheduler decides
+            if s.stream.chance(0.5, "join-timeout-expires"):
+                s.probe("timed_join_expired")
+                return
         s.join(self._actor)
 
     def is_alive(self):
